@@ -784,6 +784,7 @@ protected:
       std::size_t contentLength = 0;
       bool hasContentLength = false;
       bool isChunked = false;
+      std::string transferEncoding; // every Transfer-Encoding field line, each followed by ","
 
       // Parse headers
       std::istringstream headerStream(headerSection);
@@ -848,13 +849,24 @@ protected:
           }
           else if (key == "transfer-encoding")
           {
-            // Convert value to lowercase for comparison
-            std::transform(value.begin(), value.end(), value.begin(), ::tolower);
-            if (value.find("chunked") != std::string::npos)
-            {
-              isChunked = true;
-            }
+            // Repeated field lines form ONE coding list, in order (RFC 9110 §5.3)
+            transferEncoding += value + ",";
           }
+        }
+      }
+
+      // RFC 9112 §6.1 / §6.3: the body length is only known when chunked is the
+      // final coding, and chunked is the only coding this server removes. Anything
+      // else cannot be framed (or decoded) reliably; reject it rather than guess.
+      if (!transferEncoding.empty())
+      {
+        isChunked = transferEncodingIsChunked(transferEncoding);
+        if (!isChunked)
+        {
+          iora::core::Logger::error("HttpServer: Unsupported transfer-encoding for session " +
+                                    std::to_string(sid) + " - closing connection");
+          sendErrorResponse(sid, 400, "Bad Request");
+          return;
         }
       }
 
@@ -916,8 +928,8 @@ protected:
 
       // Process request in thread pool to avoid blocking transport
       // Use tryEnqueue for backpressure - reject requests if queue is full
-      if (!_threadPool.tryEnqueue([this, sid, requestData]()
-                                  { processHttpRequest(sid, requestData); }))
+      if (!_threadPool.tryEnqueue([this, sid, requestData, isChunked]()
+                                  { processHttpRequest(sid, requestData, isChunked); }))
       {
         // Thread pool is overloaded, send 503 Service Unavailable
         iora::core::Logger::warning(
@@ -941,8 +953,9 @@ protected:
     }
   }
 
-  /// \brief Process a complete HTTP request
-  void processHttpRequest(SessionId sid, const std::string &requestData)
+  /// \brief Process a complete HTTP request. \p isChunked is the framing decision
+  /// handleIncomingData took for it (body delimited by the chunked coding).
+  void processHttpRequest(SessionId sid, const std::string &requestData, bool isChunked)
   {
     iora::core::Logger::debug("HttpServer::processHttpRequest() - "
                               "Processing request for session " +
@@ -1004,10 +1017,7 @@ protected:
       req.body = httpReq.body;
       // handleIncomingData framed a chunked request by its chunk sizes; hand the
       // handler the decoded content, not the chunk framing (RFC 9112 §7.1).
-      std::string transferEncoding = httpReq.getHeader("Transfer-Encoding");
-      std::transform(transferEncoding.begin(), transferEncoding.end(), transferEncoding.begin(),
-                     ::tolower);
-      if (transferEncoding.find("chunked") != std::string::npos)
+      if (isChunked)
       {
         req.body = HttpResponse::parseChunkedBody(httpReq.body);
       }
@@ -1420,6 +1430,30 @@ protected:
 
     iora::core::Logger::debug("HttpServer::processHttpRequest() - Exiting for session " +
                               std::to_string(sid));
+  }
+
+  /// \brief True iff the Transfer-Encoding field value \p value (all field lines
+  /// comma-joined) lists exactly one coding and it is "chunked". Tokenized,
+  /// OWS-trimmed, case-insensitive; empty list elements are ignored (RFC 9110 §5.6.1).
+  static bool transferEncodingIsChunked(const std::string &value)
+  {
+    std::size_t codings = 0;
+    bool chunked = false;
+    std::istringstream list(value);
+    std::string coding;
+    while (std::getline(list, coding, ','))
+    {
+      coding.erase(0, coding.find_first_not_of(" \t"));
+      coding.erase(coding.find_last_not_of(" \t") + 1);
+      if (coding.empty())
+      {
+        continue;
+      }
+      std::transform(coding.begin(), coding.end(), coding.begin(), ::tolower);
+      ++codings;
+      chunked = (coding == "chunked");
+    }
+    return codings == 1 && chunked;
   }
 
   /// \brief Find the end of a chunked request body. Returns npos when more data is
